@@ -308,13 +308,18 @@ func judge(prefix string, c *loginCase, accepted bool, gotUser string, gotPerms 
 			sig = "accepted-wrongly/no-entry-no-wildcard"
 		case "entry":
 			k := pwByName[ent.Pw]
+			// the rights granted tell which record was used, unless both
+			// carry the same rights
+			got := setOf(gotPerms)
+			viaWildcard := d.Wildcard != nil && refMatches(*d.Wildcard, c.Pw) &&
+				diff(got, refPerms(d, *d.Wildcard)) == "" && diff(got, refPerms(d, ent)) != ""
 			switch {
+			case viaWildcard:
+				sig = "wildcard-tried-despite-entry"
 			case k.NoPass:
 				sig = "empty-password-entry-matched/" + k.Name
 			case k.Malformed:
 				sig = "malformed-entry-accepted/" + k.Name
-			case d.Wildcard != nil && refMatches(*d.Wildcard, c.Pw):
-				sig = "wildcard-tried-despite-entry"
 			default:
 				sig = "entry-mismatch-accepted/" + k.Name
 			}
